@@ -261,6 +261,63 @@ fn second_table(psl: &Psl, tiny_ref: &Psl, names: &[String], before: &[String], 
     }
 }
 
+/// Every rule the generated table encodes, read off the table itself (the `Table` constants are
+/// public): top-level nodes are 0..NUM_TLD, a node's children entry gives the index range of its
+/// children, its own kind (a rule, an exception rule, or only a parent) and whether it has a
+/// wildcard rule below it.  The table and the .dat file must hold the same rules - in both
+/// directions: a rule only the table knows is reached by no name derived from the .dat file.
+fn table_rules<T: public_suffix::Table>(_p: &public_suffix::ListProvider<T>) -> std::collections::BTreeSet<String> {
+    fn label<T: public_suffix::Table>(i: u32) -> &'static str {
+        let mut x = T::NODES[i as usize];
+        let length = (x & ((1 << T::NODES_BITS_TEXT_LENGTH) - 1)) as usize;
+        x >>= T::NODES_BITS_TEXT_LENGTH;
+        let offset = (x & ((1 << T::NODES_BITS_TEXT_OFFSET) - 1)) as usize;
+        &T::TEXT[offset..][..length]
+    }
+    fn walk<T: public_suffix::Table>(lo: u32, hi: u32, parent: &str, out: &mut std::collections::BTreeSet<String>, depth: usize) {
+        if depth > 12 {
+            return;
+        }
+        for f in lo..hi {
+            let name = if parent.is_empty() { label::<T>(f).to_string() } else { format!("{}.{parent}", label::<T>(f)) };
+            let mut u = T::NODES[f as usize] >> (T::NODES_BITS_TEXT_OFFSET + T::NODES_BITS_TEXT_LENGTH);
+            u >>= T::NODES_BITS_ICANN;
+            u = T::CHILDREN[(u & ((1 << T::NODES_BITS_CHILDREN) - 1)) as usize];
+            let clo = u & ((1 << T::CHILDREN_BITS_LO) - 1);
+            u >>= T::CHILDREN_BITS_LO;
+            let chi = u & ((1 << T::CHILDREN_BITS_HI) - 1);
+            u >>= T::CHILDREN_BITS_HI;
+            let ty = u & ((1 << T::CHILDREN_BITS_NODE_TYPE) - 1);
+            u >>= T::CHILDREN_BITS_NODE_TYPE;
+            let wildcard = (u & ((1 << T::CHILDREN_BITS_WILDCARD) - 1)) != 0;
+            if ty == T::NODE_TYPE_NORMAL {
+                out.insert(name.clone());
+            } else if ty == T::NODE_TYPE_EXCEPTION {
+                out.insert(format!("!{name}"));
+            }
+            if wildcard {
+                out.insert(format!("*.{name}"));
+            }
+            walk::<T>(clo, chi, &name, out, depth + 1);
+        }
+    }
+    let mut out = std::collections::BTreeSet::new();
+    walk::<T>(0, T::NUM_TLD, "", &mut out, 0);
+    out
+}
+fn table_vs_dat(psl: &Psl, stats: &mut Stats) {
+    let table = table_rules(&DEFAULT_PROVIDER);
+    let dat: std::collections::BTreeSet<String> = psl.rules.iter().cloned().collect();
+    stats.count("table_rules", table.len() as u64);
+    stats.case(&"table-vs-dat", true, "table-vs-dat");
+    for r in table.difference(&dat).take(5) {
+        stats.finding(Finding::new("kind=table-rule-not-in-dat", format!("the generated table holds the rule {r:?}, which public_suffix_list.dat does not contain ({} table rules, {} list rules)", table.len(), dat.len()), json!({"table_rule": r})));
+    }
+    for r in dat.difference(&table).take(5) {
+        stats.finding(Finding::new("kind=dat-rule-not-in-table", format!("public_suffix_list.dat holds the rule {r:?}, which the generated table does not encode"), json!({"table_rule": r})));
+    }
+}
+
 pub fn run(ctx: &Ctx) -> Result<Run, String> {
     let psl = Psl::load(DAT)?;
     // harness self-check: own punycode encoder == idna on every IDN rule
@@ -305,6 +362,7 @@ pub fn run(ctx: &Ctx) -> Result<Run, String> {
     });
     stats.merge(ust);
     stats.merge(stats0);
+    table_vs_dat(&psl, &mut stats);
     // and once more after the bulk of the default-table lookups
     let mut stats9 = Stats::new();
     second_table(&psl, &tiny_ref, &tnames, &["www.example.co.uk".to_string()], &mut stats9);
@@ -435,7 +493,7 @@ pub fn run(ctx: &Ctx) -> Result<Run, String> {
     let rules = psl.rules.len();
     let mut run = Run::from_stats(
         "exploration",
-        "a second, hand-encoded table (com, corp, intra.corp, *.lab, !gate.lab, test) behind the same generic ListProvider, looked up before, between (every ordered pair default-name/tiny-name on one thread) and after the default-table lookups and compared with the reference matcher over its own rules; every rule of public_suffix_list.dat (A-label form; wildcards instantiated with two labels and their base, exceptions without '!') as-is, with its leading label removed/replaced and with 1..12 labels prepended, compared on public_suffix / effective_tld_plus_one / is_effective_tld with a textbook PSL matcher over the .dat file; half of those names again with Unicode labels prepended (label counts must agree); every rule with each of the 64 most frequent labels of the list (thorough: every distinct label of the list) and the labels of its 4 (8) neighbours in table order in front of it; for every rule an ordered sequence of five lookups on one thread whose names share labels at different levels (reversed rule, rule, repeated top label); plus all strings over {c,k,o,m,u,w,.,A,é} up to the stated length and every printable ASCII byte right after and right before each dot of six names of 8+ bytes; long/odd names incl. the three other IDNA label separators (U+3002, U+FF0E, U+FF61) in place of a dot of fixed and rule-derived names (structural checks always, equality for canonical lower-case ASCII names). Non-trivial = a canonical name whose prevailing rule is an explicit rule of the list",
+        "the set of rules read off the generated table itself equals the set of rules of public_suffix_list.dat (both directions); a second, hand-encoded table (com, corp, intra.corp, *.lab, !gate.lab, test) behind the same generic ListProvider, looked up before, between (every ordered pair default-name/tiny-name on one thread) and after the default-table lookups and compared with the reference matcher over its own rules; every rule of public_suffix_list.dat (A-label form; wildcards instantiated with two labels and their base, exceptions without '!') as-is, with its leading label removed/replaced and with 1..12 labels prepended, compared on public_suffix / effective_tld_plus_one / is_effective_tld with a textbook PSL matcher over the .dat file; half of those names again with Unicode labels prepended (label counts must agree); every rule with each of the 64 most frequent labels of the list (thorough: every distinct label of the list) and the labels of its 4 (8) neighbours in table order in front of it; for every rule an ordered sequence of five lookups on one thread whose names share labels at different levels (reversed rule, rule, repeated top label); plus all strings over {c,k,o,m,u,w,.,A,é} up to the stated length and every printable ASCII byte right after and right before each dot of six names of 8+ bytes; long/odd names incl. the three other IDNA label separators (U+3002, U+FF0E, U+FF61) in place of a dot of fixed and rule-derived names (structural checks always, equality for canonical lower-case ASCII names). Non-trivial = a canonical name whose prevailing rule is an explicit rule of the list",
         true,
         stats,
     );
@@ -449,6 +507,11 @@ pub fn run(ctx: &Ctx) -> Result<Run, String> {
 
 pub fn replay(_ctx: &Ctx, case: &Value) -> Result<Vec<Finding>, String> {
     let psl = Psl::load(DAT)?;
+    if case.get("table_rule").is_some() {
+        let mut st = Stats::new();
+        table_vs_dat(&psl, &mut st);
+        return Ok(st.findings.into_values().map(|x| x.0).collect());
+    }
     if let Some(t) = case.get("tiny_table") {
         let name = t["name"].as_str().unwrap_or("").to_string();
         let before: Vec<String> = serde_json::from_value(t["default_lookups_before"].clone()).unwrap_or_default();
